@@ -186,7 +186,7 @@ def shrink(P, line, exe, env, msg0):
         path = os.path.join(vlib.CASES, f"{P['id']}.{os.getpid()}.shrink")
         vlib.write_cases(path, [l2])
         try:
-            rows = vlib.run_lines(exe, path, env=env)
+            rows = vlib.run_lines(exe, path, env=env, timeout=120)
         finally:
             os.remove(path)
         res, tr = rows[0]
@@ -336,6 +336,10 @@ def main():
                     distinct.add(line)
             for (bname, exe, env) in blds:
                 res, tr = outs[bname][i]
+                if res == "MISSING":
+                    # the shard was abandoned after a hang (reported as CRASH(timeout) on the case that hung)
+                    stats["abandoned_after_hang"] = stats.get("abandoned_after_hang", 0) + 1
+                    continue
                 t, flags = vlib.split_trace(tr)
                 stats["evaluations"] += 1
                 cres = vlib.canon_res(res)
